@@ -335,14 +335,14 @@ def run(ctx):
     dating.quiet()
     stats = new_stats()
     with E.LeanEP() as L:
-        c20.kernel_corr(L, ctx.rng(1), res, stats, ctx.n(300, 10000))
-        output_kernels(L, ctx.rng(2), res, stats, ctx.n(200, 6000))
-        iqr_corr(L, ctx.rng(3), res, stats, ctx.n(120, 4000))
+        c20.kernel_corr(L, ctx.rng(1), res, stats, ctx.n(300, 6000))
+        output_kernels(L, ctx.rng(2), res, stats, ctx.n(200, 4000))
+        iqr_corr(L, ctx.rng(3), res, stats, ctx.n(120, 2500))
         rng = ctx.rng(4)
-        for i in range(ctx.n(24, 600)):
+        for i in range(ctx.n(24, 400)):
             run_case(L, rng, i, res, stats, perturb=(i % 3 == 2))
     rng = ctx.rng(5)
-    for _ in range(ctx.n(40, 1200)):
+    for _ in range(ctx.n(40, 800)):
         date_case(rng, res, stats)
     res.rule = ("B: scalar kernels (damp, rescale, gammaMom, momentsOf, flipPhase, reproject) against the real functions, "
                 "bit for bit; whole EP runs replayed bit for bit on tree sequences with ancient fixed samples and rate "
